@@ -50,8 +50,8 @@ theorem C17_undictify_notations (T : Trig) (a b r p : Rat) (hr : ¬ r < 0) :
     undictifyValue T (.obj [("abs", .num r), ("phase_deg", .num p)])
       = undictifyValue T (CxNote.polar r (T.deg2rad p)).tree := by
   refine ⟨?_, ?_, ?_⟩ <;>
-    simp [CxNote.tree, CxNote.denote, undictifyValue, Obj.keysAre, Obj.has, Obj.find, pyComplex, J.asCx,
-      absFactor, hr, cart_value, polar_value]
+    simp [CxNote.tree, CxNote.denote, undictifyValue, notationBySortedKeys, Obj.keysAre, Obj.has, Obj.find, pyComplex, J.asCx,
+      absFactor, hr, cart_value, polar_value, notationBySortedKeys]
 
 /-! ## Every documented kind loads into exactly what was written -/
 
@@ -278,13 +278,20 @@ theorem C17_circuit_idempotent (c : J) :
 theorem Load.undictifyValue_unlike (T : Trig) (o : Obj) (h : cxLike o = false) :
     undictifyValue T (.obj o) = .ok none := by
   simp only [cxLike, Bool.or_eq_false_iff] at h
-  simp [undictifyValue, h.1.1, h.1.2, h.2]
+  simp [undictifyValue, notationBySortedKeys, h.1.1, h.1.2, h.2]
+
+/-- How the generated tables say the notations are recognised and written: by key *set* (a mapping
+whose keys have different types — YAML `1: x`, `a: y` — is just a mapping), the three documented key
+sets, and parts stored as plain floats (a `numpy.complex128` then survives every serialiser). -/
+theorem C17_notation_shape :
+    notationBySortedKeys = false ∧ dictifyPlainFloats = true ∧
+    notationKeySets = [["real", "imag"], ["abs", "phase"], ["abs", "phase_deg"]] := by decide
 
 mutual
 theorem Load.roundtrip (T : Trig) : (t : J) → Unambiguous t = true → undictifyAll T (dictifyAll t) = .ok t
   | .cx z, _ => by
     cases z
-    simp [dictifyAll, undictifyAll, undictifyAllO, undictifyValue, Obj.keysAre, Obj.has, Obj.find, pyComplex, J.asCx, cart_value]
+    simp [dictifyAll, undictifyAll, undictifyAllO, undictifyValue, notationBySortedKeys, Obj.keysAre, Obj.has, Obj.find, pyComplex, J.asCx, cart_value]
   | .obj o, h => by
     simp only [Unambiguous, Bool.and_eq_true, Bool.not_eq_true'] at h
     simp [dictifyAll, undictifyAll, Load.roundtripO T o h.2, Load.undictifyValue_unlike T o h.1]
@@ -333,6 +340,14 @@ theorem C17_roundtrip (T : Trig) (t : J) (h : Unambiguous t = true) :
     Plain (dictifyAll t) = true ∧ undictifyAll T (dictifyAll t) = .ok t :=
   ⟨Load.dictifyAll_plain t, Load.roundtrip T t h⟩
 
+/-- A mapping with keys of different types and no complex notation passes through the conversion
+unchanged (it used to raise `TypeError` from `sorted`) — instance of `C17_roundtrip` for the
+harness' encoding of the keys `1` and `'a'`. -/
+theorem C17_mixed_keys (T : Trig) (x y : J) (hx : Unambiguous x = true) (hy : Unambiguous y = true) :
+    undictifyAll T (dictifyAll (.obj [("\u0001n:1", x), ("a", y)])) = .ok (.obj [("\u0001n:1", x), ("a", y)]) := by
+  apply (C17_roundtrip T _ _).2
+  simp [Unambiguous, UnambiguousO, cxLike, Obj.keysAre, Obj.has, Obj.find, hx, hy]
+
 /-- …and through `serialize` / `deserialize`, for every format of the table and every
 (de)serialiser that is lossless on plain trees. -/
 theorem C17_roundtrip_codec (T : Trig) (dumps : String → J → Except Err String)
@@ -361,7 +376,7 @@ theorem C17_dictify_converts (z : GQ) (k : String) :
 /-- … and a list of scalars passes through the inverse conversion untouched. -/
 theorem C17_undictify_scalar_list (T : Trig) :
     undictifyAll T (.obj [("nodes", .arr [.str "0", .str "1"])]) = .ok (.obj [("nodes", .arr [.str "0", .str "1"])]) := by
-  simp [undictifyAll, undictifyAllO, undictifyAllL, undictifyValue, Obj.keysAre, Obj.has, Obj.find]
+  simp [undictifyAll, undictifyAllO, undictifyAllL, undictifyValue, notationBySortedKeys, Obj.keysAre, Obj.has, Obj.find]
 
 /-- A circuit *file* may carry a complex value in either notation: the conversion turns the
 notation into the number, and `ccp.impedance` then stores its real and imaginary part. -/
@@ -375,14 +390,14 @@ theorem C17_circuit_complex (T : Trig) (n : CxNote) (hn : ∀ r p, n = .polar r 
             ground := .str "0" } := by
   cases n with
   | cart a b =>
-    simp [CxNote.tree, CxNote.denote, undictifyAll, undictifyAllO, undictifyAllL, undictifyValue, Obj.keysAre, Obj.has, Obj.find,
+    simp [CxNote.tree, CxNote.denote, undictifyAll, undictifyAllO, undictifyAllL, undictifyValue, notationBySortedKeys, Obj.keysAre, Obj.has, Obj.find,
       pyComplex, J.asCx, cart_value, undictifyCircuit, genComponents, generateComponent, generateComponentObj, compRead,
       componentReads, componentCopied, Obj.read, Obj.del, circuitComponentTranslators, componentFactories, callCompFactory,
       bindArgs, bindParams, dupKeys, runGuards, buildValue, VSrc.eval, mkCircuit, firstNode, dedupL]
     rfl
   | polar r p =>
     have hr := hn r p rfl
-    simp [CxNote.tree, CxNote.denote, undictifyAll, undictifyAllO, undictifyAllL, undictifyValue, Obj.keysAre, Obj.has, Obj.find,
+    simp [CxNote.tree, CxNote.denote, undictifyAll, undictifyAllO, undictifyAllL, undictifyValue, notationBySortedKeys, Obj.keysAre, Obj.has, Obj.find,
       absFactor, hr, polar_value, undictifyCircuit, genComponents, generateComponent, generateComponentObj, compRead,
       componentReads, componentCopied, Obj.read, Obj.del, circuitComponentTranslators, componentFactories, callCompFactory,
       bindArgs, bindParams, dupKeys, runGuards, buildValue, VSrc.eval, mkCircuit, firstNode, dedupL]
